@@ -274,6 +274,14 @@ pub enum LargeCase {
     LongValue { kind: String, n: usize },
     ManyInstances { n: usize },
     ManyClasses { n: usize },
+    /// n instances of one class, each with its own shared string (SSTR table / XML SharedStrings of n entries)
+    ManyShared { n: usize },
+    /// one class whose first instance carries n differently named properties (n PROP chunks / n property elements)
+    ManyProps { n: usize },
+    /// a class name, property name or instance name of n characters
+    LongName { what: String, n: usize },
+    /// a Tags value of n tags / an Attributes value of n entries
+    ManyEntries { what: String, n: usize },
 }
 
 pub fn large_forest(c: &LargeCase) -> GForest {
@@ -328,10 +336,77 @@ pub fn large_forest(c: &LargeCase) -> GForest {
             v
         }
         LargeCase::ManyClasses { n } => (0..*n).map(|i| node(None, &format!("ZzK{i}"), format!("k{i}"), vec![])).collect(),
+        LargeCase::ManyShared { n } => (0..*n)
+            .map(|i| {
+                let own = GVal::SharedString(format!("shared string number {i}").into_bytes());
+                // every 5th instance repeats the content of its predecessor: interning must still map both
+                let v = if i % 5 == 4 { GVal::SharedString(format!("shared string number {}", i - 1).into_bytes()) } else { own };
+                node(if i % 2 == 1 { Some(i - 1) } else { None }, "ZzLarge", format!("s{i}"), vec![("Shared".to_string(), v)])
+            })
+            .collect(),
+        LargeCase::ManyProps { n } => {
+            let props: Vec<(String, GVal)> = (0..*n)
+                .map(|i| {
+                    let v = match i % 4 {
+                        0 => GVal::Bool(i % 8 == 0),
+                        1 => GVal::Int32(i as i32 - 7),
+                        2 => GVal::String(format!("v{i}")),
+                        _ => GVal::Float64((i as f64 * 0.5).to_bits()),
+                    };
+                    (format!("ZzP{i}"), v)
+                })
+                .collect();
+            vec![node(None, "ZzLarge", "all".into(), props), node(None, "ZzOther", "none".into(), vec![]), node(Some(0), "ZzOther", "child".into(), vec![])]
+        }
+        LargeCase::LongName { what, n } => {
+            let long: String = (0..*n).map(|i| (b'A' + (i % 23) as u8) as char).collect();
+            let (class, prop, name) = match what.as_str() {
+                "class" => (format!("Zz{long}"), "Value".to_string(), "plain".to_string()),
+                "property" => ("ZzLarge".to_string(), format!("Zz{long}"), "plain".to_string()),
+                _ => ("ZzLarge".to_string(), "Value".to_string(), long),
+            };
+            vec![
+                node(None, &class, name.clone(), vec![(prop.clone(), GVal::Int32(5))]),
+                node(Some(0), &class, "second".into(), vec![(prop, GVal::Int32(-5))]),
+                node(None, "Folder", name, vec![]),
+            ]
+        }
+        LargeCase::ManyEntries { what, n } => {
+            let v = if what == "Tags" {
+                ("Tags", GVal::Tags((0..*n).map(|i| format!("t{i}")).collect()))
+            } else {
+                ("Attributes", GVal::Attributes((0..*n).map(|i| (format!("a{i:06}"), if i % 2 == 0 { GVal::Bool(i % 4 == 0) } else { GVal::Float64((i as f64).to_bits()) })).collect()))
+            };
+            vec![node(None, "Folder", "many".into(), vec![(v.0.to_string(), v.1)]), node(None, "Folder", "few".into(), vec![])]
+        }
     };
     let mut f = GForest { nodes, roots: vec![] };
     f.roots = f.child_table().0;
     f
+}
+
+/// Counts and name lengths around 2^8 and 2^16 for the tables the value-size cases do not stretch:
+/// the shared-string table, the number of property columns of one class, the three kinds of names,
+/// and the entry counts of Tags / Attributes.
+pub fn more_large_cases(full: bool) -> Vec<LargeCase> {
+    let mut cases = Vec::new();
+    for n in if full { vec![255usize, 256, 257, 65_536, 65_537] } else { vec![257usize, 65_537] } {
+        cases.push(LargeCase::ManyShared { n });
+    }
+    for n in if full { vec![255usize, 256, 257, 1_025, 20_001] } else { vec![257usize, 20_001] } {
+        cases.push(LargeCase::ManyProps { n });
+    }
+    for what in ["class", "property", "instance"] {
+        for n in if full { vec![253usize, 254, 255, 256, 65_534, 65_535, 70_000] } else { vec![254usize, 65_534, 70_000] } {
+            cases.push(LargeCase::LongName { what: what.to_string(), n });
+        }
+    }
+    for what in ["Tags", "Attributes"] {
+        for n in if full { vec![255usize, 256, 257, 65_536, 65_537] } else { vec![257usize, 65_537] } {
+            cases.push(LargeCase::ManyEntries { what: what.to_string(), n });
+        }
+    }
+    cases
 }
 
 fn large_body(c: &LargeCase, ctx: &mut CaseCtx) -> PropResult {
@@ -339,6 +414,10 @@ fn large_body(c: &LargeCase, ctx: &mut CaseCtx) -> PropResult {
         LargeCase::LongValue { .. } => "long_value",
         LargeCase::ManyInstances { .. } => "many_instances_of_one_class",
         LargeCase::ManyClasses { .. } => "many_classes",
+        LargeCase::ManyShared { .. } => "many_shared_strings",
+        LargeCase::ManyProps { .. } => "many_properties_on_one_class",
+        LargeCase::LongName { .. } => "long_name",
+        LargeCase::ManyEntries { .. } => "many_entries_in_one_value",
     });
     let f = large_forest(c);
     roundtrip_body(&f, ctx)?;
@@ -539,6 +618,7 @@ pub fn run(ctx: &Ctx) -> PropertyReport {
             cases.push(LargeCase::ManyInstances { n });
         }
         cases.push(LargeCase::ManyClasses { n: 65_537 });
+        cases.extend(more_large_cases(true));
         rep.push(ctx.run_list("large", cases, true, large_body));
     }
 
